@@ -255,14 +255,30 @@ CLAIMED["C16"] = dict(
 
 CLAIMED["C18"] = dict(
     category="translation_validation",
-    technique="the correspondence half of the technique applied to four build forms: multi-file -O0 (reference), multi-file -O3 -DNDEBUG, generated single header -O0 and -O2, all built from the working tree, run on the seed-generated call scripts of C03-C09, C11, C16, C20 and compared with each other and with the Lean models",
+    technique="the correspondence half of the technique applied to four build forms: multi-file -O0 (reference), multi-file -O3 -DNDEBUG, generated single header -O0 and -O2, all built from the working tree, run on the seed-generated call scripts of C03-C09, C11, C16, C19, C20 and compared with each other and with the Lean models",
     text="NO THEOREM OF ITS OWN (a compiler's optimiser and the header generator are not modelled; a proof cannot apply to them). What "
          "is decided: the single header is generated from the current sources and compiles as one translation unit; every public-API "
          "harness builds against it; on every script of the corpus the transcripts of the four build forms are byte-identical, and "
-         "the reference form equals what the verified Lean models (the subjects of the theorems of C03-C09, C11, C16, C20) predict.",
+         "the reference form equals what the verified Lean models (the subjects of the theorems of C03-C09, C11, C16, C19, C20) predict.",
     note="Category translation_validation: equality of behaviours across build forms on a corpus, not for every program. Harnesses that "
          "need library internals (memory.c statics, the tracking heap) are outside the corpus; gcc 12 only.",
     ref="10.7")
+
+CLAIMED["C17"] = dict(
+    technique="Lean model of the macro layer as length derivation per configuration (literal / char* / GPString / pointer+length; destination-or-allocator test) followed by the function API + T-corr on GENERATED C programs: every overload form instantiated with random inputs, compiled as -std=gnu11 and as -std=c99 -DGP_PEDANTIC (thorough: also gnu11+GP_PEDANTIC, gnu99) with ASan/UBSan, macro form vs explicit function form vs model, argument evaluation counters, input-unchanged and freshness probes; per-form compile probe",
+    text="Theorems: for every macro and argument list accepted by a configuration the macro form equals the explicit function call "
+         "with the lengths spelled out (macro_eq_function, via derive_eq_explicit: strlen of a NUL-free literal = sizeof - 1 = the "
+         "explicit length; header length; explicit length), the two configurations agree (configurations_agree), the C99 size test "
+         "tells destinations from allocators for every allocator type at least as large as GPAllocator (classify99_correct), and an "
+         "allocator-destination form returns what the destination form leaves in a destination holding the first input "
+         "(alloc_form_is_dest_form_on_copy); insertL_spec. The model's `apply` is tied to src/ by the generated programs: per case "
+         "result(macro form) = result(explicit function calls) = model, in each configuration.",
+    note="PARTIAL: 'evaluates each argument once', 'inputs unchanged' and 'fresh object' are facts about C evaluation and memory, "
+         "not expressible in the pure model; they are decided per generated case by counters and probes only. Which forms exist is "
+         "decided by compiling each form alone. Trusted: gen_c17.py (the emitter of both forms), harness c17_rt.h, gcc 12. Known "
+         "findings: gp_is_valid(ptr, len[, &i]) does not exist as a C macro form; the C99 gp_replace / gp_replace_all destination "
+         "forms return the string, not the position / count.",
+    ref="10.8")
 
 PENDING = {}
 
